@@ -58,8 +58,8 @@ def run(tier="quick", seed=0):
                         problems.append("component probability %s, expected %s (a=%s b=%s K=%s n=%s eta=%s)" % (pi, w1 / (w1 + w2), a, b, K, n, eta))
                     if abs(shape - (sh + z)) > 1e-12:
                         problems.append("gamma shape %s, expected %s" % (shape, sh + z))
-                    if abs(new - max(g / rate, 1e-10)) > 1e-9 * max(1.0, abs(new)):
-                        problems.append("new value %s, expected draw/rate = %s" % (new, g / rate))
+                    if (g / rate > 1e-300 and abs(new - g / rate) > 1e-9 * abs(new)) or not new > 0:
+                        problems.append("new value %s, expected the draw itself, draw/rate = %s (a=%s b=%s K=%s n=%s): the update must sample the mixture of the statement, a floor may only catch underflow" % (new, g / rate, a, b, K, n))
                     # the mixture density equals the target up to a constant
                     xs = np.array([0.05, 0.3, 1.0, 2.7, 9.0]) / max(rate, 1e-3)
                     mix = pi * gamma_dist.pdf(xs, sh + 1, scale=1 / rate) + (1 - pi) * gamma_dist.pdf(xs, sh, scale=1 / rate)
@@ -78,13 +78,13 @@ def run(tier="quick", seed=0):
         cases += 1
         spy = Spy(np.random.PCG64(seed_))
         v = GammaPriorConcentrationSampler(0.01, 0.01, rng=spy).sample(1.0, 1, 1)
-        if not (v >= 1e-10 and math.isfinite(math.log(v))):
+        if not (v > 0 and math.isfinite(math.log(v))):
             problems.append("K=1, PCG64(%d): raw gamma draw %r, new concentration %r (log alpha not finite)" % (seed_, [e for e in spy.log if e[0] == "standard_gamma"][0][2], v))
     # generators for which the Gamma(0.01) prior draw underflows to exactly 0.0 (finding F12): the result must still be a usable concentration
     for seed_ in (1022, 2494, 6536):
         cases += 1
         v = GammaPriorConcentrationSampler(0.01, 0.01, rng=np.random.default_rng(seed_)).sample(1.0, 0, 0)
-        if not (v >= 1e-10 and math.isfinite(math.log(v))):
+        if not (v > 0 and math.isfinite(math.log(v))):
             problems.append("K=0, default_rng(%d): new concentration %r (log alpha not finite)" % (seed_, v))
     return {"cases": cases, "problems": problems}
 
